@@ -40,6 +40,29 @@ fn random_chain(rng: &mut Rng, s: &[usize], max_steps: usize) -> String {
     steps.join("|")
 }
 
+/// round 5 (20): does a quotient of the two lengths computed in f32 differ from the exact one (rounded up, down, or the remainder test)?
+fn f32_quotient_wrong(c: usize, l: usize) -> bool {
+    let q = c as f32 / l as f32;
+    (q.ceil() as usize) != c.div_ceil(l) || (q as usize) != c / l || ((c as f32 % l as f32) == 0.0) != (c % l == 0)
+}
+/// for a source of `l` elements: the first count above 2^24 for which `(count as f32 / l as f32).ceil()` gives too FEW whole copies,
+/// the first for which the truncated f32 quotient is not the exact floor, the first for which the f32 remainder test `% == 0` lies
+/// (each `None` if there is none up to 2^25 + 64)
+fn f32_traps(l: usize) -> Vec<usize> {
+    let mut found: [Option<usize>; 3] = [None; 3];
+    let mut c = (1usize << 24) + 1;
+    while c <= (1 << 25) + 64 && found.iter().any(|f| f.is_none()) {
+        let q = c as f32 / l as f32;
+        if found[0].is_none() && (q.ceil() as usize) < c.div_ceil(l) { found[0] = Some(c); }
+        if found[1].is_none() && (q as usize) != c / l && found[0] != Some(c) { found[1] = Some(c); }
+        if found[2].is_none() && ((c as f32 % l as f32) == 0.0) != (c % l == 0) && found[0] != Some(c) && found[1] != Some(c) { found[2] = Some(c); }
+        c += 1;
+        // far beyond the first few multiples nothing new turns up for the big lengths: stop scanning after 64 multiples
+        if c > (1 << 24) + 64 * l.max(64) + 64 { break; }
+    }
+    (0..3).map(|k| found[k].unwrap_or((1 << 24) + 1 + 2 * k + 4 * (l % 3))).collect()
+}
+
 fn gen(tier: &str, seed: u64, out: &mut dyn FnMut(String)) {
     let thorough = tier == "thorough";
     let mut rng = Rng::new(seed);
@@ -396,6 +419,112 @@ fn gen(tier: &str, seed: u64, out: &mut dyn FnMut(String)) {
     let g8: Vec<(&str, &str)> = vec![("3", "resize:16777217"), ("16777219", "ravel|reshape:1,16777219|squeeze:0"), ("7", "cycle_take:16777221"), ("16777217", "resize:5,3"),
         ("4097,4099", "reshape:4099,4097|expand:1|atleast:3"), ("16777217", "cycle_take:16777225"), ("5,3", "resize:4097,4099"), ("16777217", "reshape:16777216"), ("33554433", "ravel|expand:0"), ("2", "resize:33554435")];
     for (gi, (a, st)) in g8.iter().enumerate() { if thorough || gi < 5 { out(format!("giant8 iota:{a} {st}")); } }
+
+    // ================================================================== robustness streams, round 5
+    // ---- (20) counts above 2^24 for the CHEAP operations, u8 elements, compared in place (`giant8`, ~0.1 - 0.4 s each).  A copy count, a
+    //      quotient or a length that went through f32 is only wrong for SOME (count, source length) pairs above 2^24 (the rounded
+    //      count must fall on or below the last whole multiple of the source length), so the pairs are SEARCHED here with the three
+    //      float idioms (`f32_traps`): for every source length the first count above 2^24 whose ceil-quotient, floor-quotient and
+    //      nearest-quotient in f32 differ from the exact ones, plus the plain 2^24 + 1 and 2^25 + 3; rank-1 targets for every length,
+    //      rank 2 - 4 targets with the source lengths searched the other way round.
+    let src8: Vec<usize> = if thorough { vec![1, 2, 3, 4, 5, 6, 7, 8, 9, 10, 12, 15, 16, 17, 31, 64, 100, 255, 256, 257, 1000, 1024, 4096, 4097, 65536, 65537, 1 << 20, (1 << 20) + 1, 1 << 24, (1 << 24) + 1, (1 << 24) + 3] }
+        else { vec![1, 2, 3, 7, 256, 4096, 65537, (1 << 24) + 1] };
+    let mut seen8: Vec<String> = vec![];
+    let mut out8 = |line: String, out: &mut dyn FnMut(String)| { if !seen8.contains(&line) { seen8.push(line.clone()); out(line); } };
+    for (li, &l) in src8.iter().enumerate() {
+        let traps = f32_traps(l);
+        let src = if l % 2 == 0 && l > 2 && li % 2 == 1 { format!("2,{}", l / 2) } else { l.to_string() };
+        for (ti, &c) in traps.iter().enumerate() {
+            // quick: the ceil trap through resize, the floor trap through cycle_take (and the other way round for every other length)
+            let (rs, ct) = if thorough { (true, ti != 2 || li % 3 == 0) } else { (ti == li % 2, ti == 1 - li % 2) };
+            if rs { out8(format!("giant8 iota:{src} resize:{c}"), out); }
+            if ct { out8(format!("giant8 iota:{src} cycle_take:{c}"), out); }
+        }
+        if thorough || li % 4 == 0 { out8(format!("giant8 iota:{src} resize:{}", (1usize << 24) + 1), out); }
+        if thorough && li % 3 == 0 { out8(format!("giant8 iota:{src} resize:{}", (1usize << 25) + 3), out); out8(format!("giant8 iota:{src} cycle_take:{}", (1usize << 25) + 1), out); }
+    }
+    let tgt8: Vec<Vec<usize>> = vec![vec![4097, 4097], vec![3, 5_592_407], vec![5_592_409, 3], vec![1, 16_777_217, 1], vec![2, 8_388_609], vec![8_388_609, 2], vec![3, 1, 5_592_407], vec![257, 255, 257], vec![2, 2, 2, 2_097_153], vec![4099, 4099], vec![3, 8_388_609], vec![5, 1_677_722, 3]];
+    for (ti, t) in tgt8.iter().enumerate() {
+        if !thorough && ti >= 3 { break; }
+        let c: usize = t.iter().product();
+        // source lengths for which this very count is an f32 trap: those that get too few whole copies from the ceil idiom first
+        // (the smallest above 1, the largest below 70 000, in thorough one in between), else any of the three idioms
+        let few: Vec<usize> = (2..70_000usize).filter(|&l| ((c as f32 / l as f32).ceil() as usize) < c.div_ceil(l)).collect();
+        let bad: Vec<usize> = if few.is_empty() { (2..70_000usize).filter(|&l| f32_quotient_wrong(c, l)).collect() } else { few };
+        let mut pick: Vec<usize> = vec![];
+        if let Some(&b) = bad.last() { pick.push(b); }
+        if let Some(&b) = bad.first() { if (thorough || ti % 2 == 1) && !pick.contains(&b) { pick.push(b); } }
+        if thorough && bad.len() > 2 { pick.push(bad[bad.len() / 2]); }
+        if pick.is_empty() { pick.push(2); }
+        for l in pick { out8(format!("giant8 iota:{l} resize:{}", show_list(t)), out); }
+    }
+    // the structural steps on more than 2^24 elements (nothing is copied: one or two per operation; the refused ones cost nothing)
+    let st8: Vec<(&str, &str)> = vec![("16777217", "reshape:4096,4096"), ("4097,4097", "reshape:16785408"), ("16777217", "atleast:2"), ("1,16777217", "squeeze:0|expand:0,-1"),
+        ("16777217", "reshape:1,16777217,1|squeeze:none"), ("4097,4097", "ravel|atleast:3"), ("16777217", "reshape:16777218"), ("16777217,1", "squeeze:-1|atleast:3"), ("2,8388609", "expand:1,3,0|squeeze:3,0,1"),
+        ("16777217", "cycle_take:16777216"), ("16777217", "resize:16777216"), ("16777218", "resize:16777217"), ("16777217", "resize:33554433"), ("16777219", "cycle_take:33554439")];
+    for (gi, (a, st)) in st8.iter().enumerate() { if thorough || gi < 6 { out(format!("giant8 iota:{a} {st}")); } }
+    // Array::create above 2^24 (u8): the shape as given, left-padded, and a count that equals the product only after an f32 rounding
+    for (gi, (n, sh, nd)) in [("16777217", "16777217", "3"), ("16777217", "16777216", "none"), ("16785409", "4097,4097", "none"), ("16785408", "4097,4097", "2"), ("16777217", "1,16777217,1", "5"), ("16777216", "16777217", "none")].iter().enumerate() {
+        if thorough || gi < 3 { out(format!("gcreate8 {n} {sh} {nd}")); }
+    }
+    // ---- (20) axis LENGTHS that f32 / f64 / u32 cannot hold, on EMPTY arrays (no memory needed, through the model): the shape must come
+    //      back digit for digit from every step
+    for big in [(1usize << 24) + 1, (1 << 31) + 1, 1 << 32, (1 << 32) + 1, (1 << 53) + 1, (1 << 63) + 1, usize::MAX] {
+        for a in [format!("i0,{big}"), format!("i{big},0"), format!("i1,0,{big}")] {
+            for st in ["ravel".to_string(), "-".to_string(), "squeeze:none".to_string(), "expand:0".to_string(), "expand:-1,1|squeeze:-1,1".to_string(), "atleast:3".to_string(), format!("reshape:{big},0"), format!("reshape:0,{big}|reshape:0"), format!("reshape:{big}"),
+                       format!("resize:0,{big}"), format!("resize:{big},0,1"), format!("resize:{big}"), "cycle_take:3".to_string(), "squeeze:0".to_string(), "squeeze:-1".to_string()] {
+                out(format!("chain {a} {st}"));
+            }
+        }
+        out(format!("chain i0 reshape:0,{big}|expand:0|squeeze:0|reshape:{big},0"));
+        out(format!("chain i2,0 resize:{big},0|ravel"));
+        out(format!("create - 0,{big} none")); out(format!("create - {big},0 4")); out(format!("create 1 {big} none"));
+    }
+    // ---- (argument relations) resize / cycle_take targets RELATED to the source: the same shape, the reversed shape, the flat count, exact
+    //      multiples and divisors of the count, the shape under a new leading / trailing axis, one axis doubled, count +- 1
+    for s in &all {
+        let n: usize = s.iter().product(); if n == 0 || s.is_empty() { continue; }
+        let a = centred(s);
+        let mut rel: Vec<Vec<usize>> = vec![s.clone(), s.iter().rev().copied().collect(), vec![n], vec![n, 1], vec![1, n], vec![2 * n], vec![3 * n], vec![n, n], vec![n, 2]];
+        rel.push({ let mut t = vec![2]; t.extend_from_slice(s); t }); rel.push({ let mut t = s.clone(); t.push(2); t });
+        rel.push({ let mut t = s.clone(); t[0] *= 2; t }); rel.push({ let mut t = s.clone(); *t.last_mut().unwrap() *= 3; t });
+        if n % 2 == 0 { rel.push(vec![n / 2]); rel.push(vec![n / 2, 2]); } if n % 3 == 0 { rel.push(vec![n / 3]); }
+        if n > 1 { rel.push(vec![n - 1]); rel.push(vec![2 * n - 1]); }
+        rel.sort(); rel.dedup();
+        for t in &rel { out(format!("chain {a} resize:{}", show_list(t))); }
+        for k in [n, 2 * n, 3 * n, n * n, n / 2, 2 * n - 1, 2 * n + 1] { out(format!("chain {a} cycle_take:{k}")); }
+        out(format!("chain {a} resize:{}|resize:{}", show_list(s), show_list(s)));
+        out(format!("chain {a} cycle_take:{n}|reshape:{}", show_list(s)));
+    }
+    // ---- (value relations) sources that LOOK constant or periodic without being so: constant except the last / the first / the middle
+    //      element, period 2 and period 3 with a broken last period, a palindrome; and sources whose elements all PRINT alike without
+    //      being identical (the f64 / f32 special images map 2 / 7 to two NaNs, the print-alike images map 0 / 5 / 8 and 2 / 7 to
+    //      different values with one Display form) as the WHOLE source (not only the Thue-Morse mixtures above): every ordering of two
+    //      and three of them, through every copying step
+    for s in [vec![2usize], vec![3], vec![4], vec![2, 2], vec![2, 3], vec![7], vec![3, 1, 3], vec![12], vec![2, 3, 4], vec![17, 16]] {
+        let n: usize = s.iter().product();
+        let spell_arr = |vals: Vec<i64>| format!("{}:{}", show_list(&s), show_list(&vals));
+        let mut arrs: Vec<String> = vec![];
+        arrs.push(spell_arr(vec![1; n]));   // every element is `T::one()` / prints "1" / is `true`
+        arrs.push(spell_arr((0..n).map(|k| if k == n - 1 { 3 } else { 7 }).collect()));
+        arrs.push(spell_arr((0..n).map(|k| if k == 0 { 3 } else { 7 }).collect()));
+        arrs.push(spell_arr((0..n).map(|k| if k == n / 2 { 3 } else { 7 }).collect()));
+        arrs.push(spell_arr((0..n).map(|k| if k == n - 1 && n > 2 { 9 } else { [1, 4][k % 2] }).collect()));
+        arrs.push(spell_arr((0..n).map(|k| [1, 4, 6][k % 3]).collect()));
+        arrs.push(spell_arr((0..n).map(|k| k.min(n - 1 - k) as i64 + 1).collect()));
+        for (x, y, z) in [(2i64, 7i64, 2i64), (7, 2, 2), (0, 5, 8), (8, 0, 5), (5, 8, 0), (2, 7, 7), (0, 8, 8), (5, 0, 0), (13, 5, 8)] {
+            arrs.push(spell_arr((0..n).map(|k| [x, y, z][k % 3]).collect()));
+            if n <= 4 { arrs.push(spell_arr((0..n).map(|k| if k == n - 1 { y } else { x }).collect())); }
+        }
+        for a in &arrs {
+            for st in [format!("resize:{}", n + 1), format!("resize:2,{n}"), format!("resize:{}", 3 * n + 2), format!("resize:{}", show_list(&s)), format!("resize:{}", n - 1), "resize:3,3".to_string(), "resize:0".to_string(),
+                       format!("cycle_take:{}", 2 * n + 1), format!("cycle_take:{n}"), "cycle_take:1".to_string(), "ravel".to_string(), format!("reshape:{n}"), format!("reshape:{n},1"), "atleast:3".to_string(), "expand:0,-1".to_string(), "squeeze:none".to_string(),
+                       format!("resize:{}|resize:{}", 2 * n + 1, show_list(&s))] {
+                out(format!("chain {a} {st}"));
+            }
+            out(format!("create {} {} 3", a.split_once(':').unwrap().1, show_list(&s)));
+        }
+    }
     out("audit".into());
 }
 
@@ -498,6 +627,40 @@ fn image_create_on<T: ArrayElement>(_recs: &[bool], label: &str, el: &[i64], sh:
 /// f64 value classes by tag: -0.0, +0.0, NaN, the smallest subnormal, infinities, ordinary values
 fn special_f64(t: i64) -> f64 {
     match t.rem_euclid(8) { 0 => -0.0, 1 => t as f64, 2 => f64::NAN, 3 => -(t as f64) - 0.5, 4 => f64::from_bits(1), 5 => 0.0, 6 => f64::NEG_INFINITY, _ => f64::from_bits(0xFFF8_0000_0000_0001) }
+}
+
+/// the same value classes in f32 (two NaNs of different sign / payload at tags 2 and 7)
+fn special_f32(t: i64) -> f32 {
+    match t.rem_euclid(8) { 0 => -0.0, 1 => t as f32, 2 => f32::NAN, 3 => -(t as f32) - 0.5, 4 => f32::from_bits(1), 5 => 0.0, 6 => f32::NEG_INFINITY, _ => f32::from_bits(0xFFC0_0001) }
+}
+/// round 5 — PRINT-ALIKE images: different values with one and the same Display form (`(a, b, c, d)` split at another comma; `[x, y]`
+/// as one string or as two).  Tags 0 / 5 / 8 (and 13 = the value of 0) share one printed form, tags 2 / 7 another; every other tag
+/// prints differently.  An "are they all the same?" test made on the printed form takes such a source for a constant one.
+type PA = Tuple2<String, String>;
+type PL = List<String>;
+/// a composite element that `is_nan()` (and is not `==` to itself) for tags 2 / 7, compared bit-wise
+type TN = Tuple2<f64, i32>;
+fn pa_class(t: i64) -> (String, usize) {
+    match t.rem_euclid(16) { 0 | 13 => (format!("g{}", t.div_euclid(16)), 0), 5 => (format!("g{}", t.div_euclid(16)), 1), 8 => (format!("g{}", t.div_euclid(16)), 2),
+        2 => (format!("h{}", t.div_euclid(16)), 0), 7 => (format!("h{}", t.div_euclid(16)), 1), _ => (format!("u{t}"), 0) }
+}
+fn tag_pa(t: i64) -> PA {
+    let (w, split) = pa_class(t);
+    match split { 0 => Tuple2(w, "b, c, d".to_string()), 1 => Tuple2(format!("{w}, b"), "c, d".to_string()), _ => Tuple2(format!("{w}, b, c"), "d".to_string()) }
+}
+fn tag_pl(t: i64) -> PL {
+    let (w, split) = pa_class(t);
+    match split { 0 => List(vec![w, "b".to_string(), "c".to_string()]), 1 => List(vec![format!("{w}, b"), "c".to_string()]), _ => List(vec![format!("{w}, b, c")]) }
+}
+/// the round-5 images on both receivers: f32 special values always, the two print-alike types when `$small`
+macro_rules! round5_types {
+    ($call:ident, $small:expr, $($pre:expr),*) => {{
+        let small: bool = $small;
+        None::<String>.or_else(|| $call("f32 special values", $($pre),*, special_f32, |x: &f32, y: &f32| x.to_bits() == y.to_bits()))
+            .or_else(|| $call("Tuple2<f64,i32> with the f64 special values inside (bit-wise)", $($pre),*, |t: i64| Tuple2(special_f64(t), (t % 3) as i32), |x: &TN, y: &TN| x.0.to_bits() == y.0.to_bits() && x.1 == y.1))
+            .or_else(|| if small { $call("Tuple2<String,String> print-alike values", $($pre),*, tag_pa, |x: &PA, y: &PA| x == y) } else { None })
+            .or_else(|| if small { $call("List<String> print-alike values", $($pre),*, tag_pl, |x: &PL, y: &PL| x == y) } else { None })
+    }};
 }
 
 /// run `$f!(label, from, same)` for every image type until one reports a divergence
@@ -677,6 +840,8 @@ fn observe(shape: &[usize], tags: &[i64], steps: &[Step], step_text: &str, all_t
     let pick = fnv(step_text).wrapping_add(tags.len() as u64);
     let out_len = match &canon { Ok(Ok(g)) => g.get_elements().map_or(0, |e| e.len()), _ => 0 };
     let div = div.or_else(|| layout_types!(image_on, pick, all_types && tags.len() <= 3000 && out_len <= 3000, shape, tags, steps, &canon));
+    // round 5: f32 special values (NaN payloads) and the print-alike element types
+    let div = div.or_else(|| if all_types { round5_types!(image, tags.len() <= 3000 && out_len <= 3000, shape, tags, steps, &canon) } else { None });
     match div { Some(d) => format!("{d}; i64 run: {}", truncate(&obs, 300)), None => obs }
 }
 /// compare a giant result IN PLACE with the native plan (shape, count, every element `from(plan.at(p))`); never formats the array.
@@ -871,6 +1036,19 @@ fn exec(op: &str, args: &[&str], expected: &str) -> Option<Verdict> {
             if let Some((o, d)) = one("Tuple3<i32,i32,i32> (12 bytes) image", &shape, n, nd, &plan, tag_t3, |x: &T3, y: &T3| x == y) { return mismatch(o, d); }
             Some(Verdict::Match(match &plan { Ok(pl) => format!("ok shape {} ({} elements equal in place; i64, u8, 12-byte tuple)", show_list(&pl.shape), pl.count), Err(()) => "err".into() }))
         }
+        // gcreate8 COUNT SHAPE ndmin — round 5 (20): Array::create on COUNT > 2^24 u8 elements (element k = tag k) under SHAPE, whose product may
+        // differ from COUNT by an amount an f32 / f64 rounding swallows (then it must be refused)
+        "gcreate8" => {
+            if args.len() != 3 { return None; }
+            if expected != "ok native" { return Some(compare_default("harness: gcreate8 expects the driver to answer `ok native`".into(), expected)); }
+            let (n, shape, nd): (usize, Vec<usize>, Option<usize>) = (args[0].parse().ok()?, parse_usize_list(args[1]), parse_opt(args[2]));
+            let plan = native_create(n, &shape, nd).map(|sh| Plan { shape: sh, count: n, moduli: vec![] });
+            GIANT_ONLY.fetch_add(1, std::sync::atomic::Ordering::Relaxed);
+            let elems: Vec<u8> = (0..n as i64).map(tag_u8).collect();
+            let got: Out<u8> = catch_unwind(AssertUnwindSafe(|| Array::create(elems, shape.clone(), nd))).map_err(|_| ());
+            if let Some((o, d)) = giant_judge("u8 image, Array::create", &got, &plan, &tag_u8, &|x: &u8, y: &u8| x == y) { return mismatch(o, d); }
+            Some(Verdict::Match(match &plan { Ok(pl) => format!("ok shape {} ({} u8 elements equal in place)", show_list(&pl.shape), pl.count), Err(()) => "err (refused, as the native reference says)".into() }))
+        }
         "audit" => {
             let ld = |c: &std::sync::atomic::AtomicUsize| c.load(std::sync::atomic::Ordering::Relaxed);
             let (v, h, sv, cv, g) = (ld(&ORACLE_VALIDATIONS), ld(&NATIVE_ONLY), ld(&SHAPE_VALIDATIONS), ld(&CREATE_VALIDATIONS), ld(&GIANT_ONLY));
@@ -891,7 +1069,8 @@ fn exec(op: &str, args: &[&str], expected: &str) -> Option<Verdict> {
                 if !ok { return mismatch(format!("ORACLE-DIVERGENCE native create: {:?}", nat), format!("the harness-native reference of Array::create disagrees with the model, which says `{}`", truncate(expected, 300))); }
                 CREATE_VALIDATIONS.fetch_add(1, std::sync::atomic::Ordering::Relaxed);
             }
-            let div = every_type!(image_create, &el, &sh, nd, &canon).or_else(|| layout_types!(image_create_on, fnv(args[1]).wrapping_add(el.len() as u64), el.len() <= 3000, &el, &sh, nd, &canon));
+            let div = every_type!(image_create, &el, &sh, nd, &canon).or_else(|| layout_types!(image_create_on, fnv(args[1]).wrapping_add(el.len() as u64), el.len() <= 3000, &el, &sh, nd, &canon))
+                .or_else(|| round5_types!(image_create, el.len() <= 3000, &el, &sh, nd, &canon));
             Some(match div { Some(d) => compare_default(format!("{d}; i64 run: {}", truncate(&obs, 300)), expected), None => compare_default(obs, expected) })
         }
         _ => None,
@@ -903,6 +1082,7 @@ fn nontrivial(op: &str, args: &[&str]) -> bool {
     if op == "create" { return args[2] != "none"; }
     if op == "audit" { return false; }
     if op == "gcreate" { return args[1] != "none"; }
+    if op == "gcreate8" { return args[2] != "none"; }
     if op == "giant" || op == "giant8" || op == "giantw" { return args[1] != "-"; }
     parse_arr_raw(args[0]).1.len() >= 2 && args[1] != "-"
 }
